@@ -75,6 +75,9 @@ def run(ctx, anchors=None):
     ctx.floor("R03.1", nsub, 12, "subscripts of vin / vout / amounts in instance.cpp and tap.cpp")
     pit = fb.fn("Instance::parse_input_transaction")
     cfg = pit.cfg()
+
+    from . import common as _cm
+    _cm.require_names(pit, ["select_index", "txin_hash", "txin_index", "txin_vout_index"], "R03.2")
     defs_in = [n for n in pit.nodes() if n["k"] == "assign" and astq.estr(n["lhs"]).endswith("txin_index") and not astq.estr(n["lhs"]).endswith("vout_index")]
     defs_out = [n for n in pit.nodes() if n["k"] == "assign" and astq.estr(n["lhs"]).endswith("txin_vout_index")]
     ctx.floor("R03.2", len(defs_in), 1, "definitions of the input index")
@@ -125,6 +128,8 @@ def run(ctx, anchors=None):
     # ---- R03.3
     cf = fb.fn("Instance::configure_tx_txin")
     ccfg = cf.cfg()
+    from . import common as _cm
+    _cm.require_names(cf, ["wscript", "pushval", "hashsrc", "source", "validation", "wsh", "wstack", "program", "control", "scriptPubKey", "stack", "witprogver", "sigver", "amounts"], "R03.3")
 
     def rejecting_if(pred):
         for n in cf.nodes():
